@@ -3,6 +3,8 @@
 package strategy
 
 import (
+	"github.com/DataDog/extendeddaemonset/zzverif/fakeapi"
+	"github.com/go-logr/logr"
 	"strconv"
 	"time"
 
@@ -359,4 +361,72 @@ func ZZ_C06_anyWaitingContainer() {
 	nondet.Assert("C06.any-container.not-failed", !res.IsFailed)
 	nondet.Observe("isPaused", res.IsPaused)
 	nondet.Reach("C06.any-container.init-container-stuck-behind-a-waiting-one", res.IsPaused && first == "PodInitializing" && zzCannotStart[second])
+}
+
+// ZZ_C06_timeoutWhateverTheCanaryPodIsDoing: "while at least one up-to-date canary pod exists ... Canary-Failed
+// becomes true exactly when ... the canary has lasted longer than autoFail.canaryTimeout" — through the whole
+// canary strategy (ManageCanaryDeployment), and whatever state the one canary pod is in: running and healthy,
+// bound by the node-name affinity and still unscheduled after one minute, or unscheduled for a quarter of an
+// hour (a pod the rolling update would call stuck).  canaryTimeout 30 minutes, the canary 10 minutes or one
+// hour old: failed exactly in the second case, and then no pod is created.
+func ZZ_C06_timeoutWhateverTheCanaryPodIsDoing() {
+	ds := zzDaemonset(map[string]string{})
+	on := true
+	ds.Spec.Strategy.Canary = &datadoghqv1alpha1.ExtendedDaemonSetSpecStrategyCanary{
+		AutoFail: &datadoghqv1alpha1.ExtendedDaemonSetSpecStrategyCanaryAutoFail{Enabled: &on, CanaryTimeout: &metav1.Duration{Duration: 30 * time.Minute}},
+	}
+	datadoghqv1alpha1.DefaultExtendedDaemonSetSpec(&ds.Spec, datadoghqv1alpha1.ExtendedDaemonSetSpecStrategyCanaryValidationModeAuto)
+	rs := zzReplicaSet()
+	age := 10 * time.Minute
+	if nondet.Bool("canaryOlderThanItsTimeout") {
+		age = time.Hour
+	}
+	since := metav1.NewTime(nondet.Base().Add(-age))
+	rs.Status.Conditions = []datadoghqv1alpha1.ExtendedDaemonSetReplicaSetCondition{{Type: datadoghqv1alpha1.ConditionTypeCanary, Status: corev1.ConditionTrue, LastTransitionTime: since, LastUpdateTime: since}}
+	params := &Parameters{
+		EDSName: zzEDSName, Strategy: &ds.Spec.Strategy, Replicaset: rs, ReplicaSetStatus: string(ReplicaSetStatusCanary),
+		NewStatus:  rs.Status.DeepCopy(),
+		NodeByName: map[string]*NodeItem{}, PodByNodeName: map[*NodeItem]*corev1.Pod{},
+		Logger:     logr.Logger{},
+	}
+	for i := 0; i < 2; i++ {
+		ni := NewNodeItem(&corev1.Node{ObjectMeta: metav1.ObjectMeta{Name: zzNodeName(i)}}, nil)
+		params.NodeByName[ni.Node.Name] = ni
+		params.CanaryNodes = append(params.CanaryNodes, ni.Node.Name)
+		params.PodByNodeName[ni] = nil
+	}
+	var p *corev1.Pod
+	switch nondet.String("canaryPod", "running", "unscheduled-for-a-minute", "unscheduled-for-a-quarter-of-an-hour") {
+	case "running":
+		p = zzPod(0, zzHashNew, 2, true, nondet.Base().Add(-9*time.Minute))
+	case "unscheduled-for-a-minute":
+		p = zzPod(0, zzHashNew, 0, false, nondet.Base().Add(-time.Minute))
+		p.Status.Phase = corev1.PodPending
+	default:
+		p = zzPod(0, zzHashNew, 0, false, nondet.Base().Add(-15*time.Minute))
+		p.Status.Phase = corev1.PodPending
+	}
+	st := metav1.NewTime(p.CreationTimestamp.Time)
+	p.Status.StartTime = &st
+	params.PodByNodeName[params.NodeByName[zzNodeName(0)]] = p
+
+	res, err := ManageCanaryDeployment(fakeapi.New(), ds, params)
+	nondet.Assert("C06.timeout.noerror", err == nil && res != nil)
+	if res == nil {
+		return
+	}
+	failedCond := false
+	for _, c := range res.NewStatus.Conditions {
+		if c.Type == datadoghqv1alpha1.ConditionTypeCanaryFailed && c.Status == corev1.ConditionTrue {
+			failedCond = true
+		}
+	}
+	want := age > 30*time.Minute
+	nondet.Assert("C06.timeout.fires-exactly-when-exceeded", res.IsFailed == want && failedCond == want)
+	if want {
+		nondet.Assert("C06.timeout.no-create-once-failed", len(res.PodsToCreate) == 0)
+	}
+	nondet.Observe("failed", res.IsFailed)
+	nondet.Observe("creates", len(res.PodsToCreate))
+	nondet.Reach("C06.timeout.fires-with-a-stuck-pod", want && p.Spec.NodeName == "" && res.IsFailed)
 }
